@@ -154,9 +154,12 @@ func (eng *Engine) verifyFunc(sp *FuncSpec) (res *FuncResult) {
 	st.reach = c.Name(st.reach, "pre")
 	e.obls = append(e.obls, &Obligation{Name: "cover:pre", Kind: "cover", Reach: st.reach, Cond: c.True(), Cover: true})
 	// frame
-	if sp.HasModifies {
+	if sp.HasModifies && !sp.TrustFrame {
 		e.frameLocs = e.modLocs(sp, args, st)
 		e.frameOn = true
+	}
+	if sp.TrustFrame {
+		e.assumed["modifies clause assumed, not checked against the body (trust frame): "+sp.Name] = true
 	}
 	out, results := e.run(fr, args, st)
 	e.obls = append(e.obls, &Obligation{Name: "cover:exit", Kind: "cover", Reach: out.reach, Cond: c.True(), Cover: true})
